@@ -778,6 +778,20 @@ func (progBldr *ProgBuilder) Eq(ctx *context) {
 		}
 		ctx.pushDatum(NewBoolDatum(false))
 		return
+	// a leaflist on the right: existential as well ('x' = ../leaflist)
+	case isDatumSlice(d1):
+		ctx.isLeafListFilter = true
+		for _, datum := range d1.DatumSlice("leaflistfilter") {
+			ctx.pushDatum(d2)
+			ctx.pushDatum(datum)
+			progBldr.Eq(ctx)
+			if ctx.popBool("eq(arg1,datumslice)") {
+				ctx.pushDatum(NewBoolDatum(true))
+				return
+			}
+		}
+		ctx.pushDatum(NewBoolDatum(false))
+		return
 	// being out of predicate, this is an equality check
 	// if we are in a leaflistfilter case, this is also needed
 	case ctx.predicateCount == 0 || ctx.isLeafListFilter:
